@@ -17,7 +17,8 @@
                  program is [within_capacity_<b>] (Model/Capacity.v), ANY panic is a failure (this
                  ties theorem codegen_total to the real code generators)
    Verdicts:
-     VIOL class=capture-under-binder <name> core: <why>     the known fun2core capture defect: ONLY when
+     VIOL class=capture-under-binder <name> core: <why>     the FORMER finding capture-under-binder-typing (repaired in /repo by
+                                 <commitcap>; no known_findings entry matches it any more: a plain violation now): ONLY when
                                  [shadowing_risk_prog] holds of the source AND the first ill-typed stage is core
                                  AND the failure is an occurrence resolved to a binder of another chirality/type
                                  (or two parameters of the same name in a shared continuation share_<def>_<k>)
@@ -148,7 +149,8 @@ Definition find_stage (name : string) (l : list sexp) : sexp :=
 Definition size_ax (p : AxSyn.prog) : N :=
   fold_left (fun acc d => acc + 1 + N.of_nat (List.length (LinCheck.binders (AxSyn.dbody d))))%N (AxSyn.pdefs p) 0%N.
 
-(* the witnesses of theorems C12_fun2core_typing_refuted / C12_fun2core_main_result_refuted are the real checked
+(* the witnesses of theorems C12_fun2core_typing_refuted_before_fix / C12_capture_typing_witness_fixed /
+   C12_fun2core_main_result_refuted are the real checked
    forms of their corpus files *)
 Fixpoint ends_with (suffix s : string) : bool :=
   String.eqb suffix s || match s with EmptyString => false | String _ r => ends_with suffix r end.
@@ -209,7 +211,6 @@ Definition tyguard_why (p : fcprog) : string :=
       else if negb (ctx_tyd D C (compile_ctx (fdctx d))) then "param-type-undeclared"
       else if negb (tg p D C (compile_ctx (fdctx d)) (fdbody d))
            then "body-typing-" ++ tg_diag 200 p D C (compile_ctx (fdctx d)) (fdbody d)
-      else if shadowing_risk (f_is_codata p) (fdbody d) [] then "shadow-risk"
       else "result-type"
   end.
 
@@ -260,12 +261,13 @@ Definition wtstages_case (i r : sexp) : verdict :=
               else if g2 && negb (String.eqb st "checked") && negb (contains "wt_core (embed_prog f) rejects" why)
               then VViol ("class=ill-typed-stage:" ++ st ++ "-inside-pipeline-guard " ++ name ++ " the guards of C12_pipeline_wt_source hold but: " ++ trunc 300 why)
               else
-              if risk && String.eqb st "core" && is_rebinding_message why
-              then VViol ("class=capture-under-binder " ++ name ++ " core: " ++ trunc 300 why)
               (* known finding call-to-main (C02): main is compiled without a return continuation, a call
                  of main passes one - the FIRST ill-typed stage is core and the failure is that call's arity *)
-              else if calls_main_prog fp && String.eqb st "core" && contains "call main: wrong number of arguments" why
+              if calls_main_prog fp && String.eqb st "core" && contains "call main: wrong number of arguments" why
               then VViol ("class=call-to-main-typing " ++ name ++ " core: " ++ trunc 300 why)
+              (* former finding capture-under-binder-typing (repaired by <commitcap>; a plain violation now) *)
+              else if risk && String.eqb st "core" && is_rebinding_message why
+              then VViol ("class=capture-under-binder " ++ name ++ " core: " ++ trunc 300 why)
               (* former finding main-non-integer-result (fixed; no known_findings entry matches it any more): the FIRST ill-typed stage is core and the failure is the
                  type of the operand of main's final exit *)
               else if main_nonint fp && String.eqb st "core" && is_exit_operand_message why
